@@ -144,6 +144,20 @@ def case_arith(c):
                   site='backend.get_total_obs_num_samples')
         except Exception as e:
             V('raised', '%s: %s' % (type(e).__name__, e), site='backend.get_total_obs_num_samples')
+        # the level helper counts whole fine spectra: n * samples-per-block // fftlength (exact integers)
+        for Nf in sorted(set((1, 2, 4, spb))):       # (spb: exactly one fine spectrum per block)
+            if n and (n * spb) % Nf == 0:
+                try:
+                    lv = float(level_utils.get_level(10.0, be, Nf, num_blocks=t(n), length_mode='num_blocks'))
+                    tch_x = n * spb // Nf
+                    want_lv = (10.0 * (2.0 / (2 * npol)) ** 0.5 / tch_x ** 0.5) ** 0.5 / (P * Nf / 4.0) ** 0.5
+                    if abs(lv - want_lv) > 1e-12 * want_lv:
+                        V('get_level_spectra', 'get_level(snr=10, fftlength=%d, num_blocks=%d)=%r; with %d fine spectra it is %r (ratio %.6f)'
+                          % (Nf, n, lv, tch_x, want_lv, lv / want_lv), site='level_utils.get_level')
+                except ZeroDivisionError:
+                    pass
+                except Exception as e:
+                    V('raised', '%s: %s' % (type(e).__name__, e), site='level_utils.get_level')
         outcomes.add('nb')
     # durations
     for n in c['dur_n']:
